@@ -6,6 +6,7 @@ import (
 	"io"
 	"log/slog"
 	"net"
+	"strings"
 	"sync"
 	"testing"
 	"time"
@@ -169,7 +170,11 @@ func TestVerifC08Extra(t *testing.T) {
 
 		// ctx bounds the calls under test (a silent peer makes them wait for it); the proof
 		// that returned connections are genuine runs under its own context afterwards
-		ctx, cancel := context.WithTimeout(context.Background(), 1500*time.Millisecond)
+		budget := 1500 * time.Millisecond
+		if scenario == "honest" {
+			budget = 20 * time.Second // nobody is silent here; on a busy machine four handshakes can take seconds
+		}
+		ctx, cancel := context.WithTimeout(context.Background(), budget)
 		defer cancel()
 		pctx, pcancel := context.WithTimeout(context.Background(), 6*time.Second)
 		defer pcancel()
@@ -220,6 +225,10 @@ func TestVerifC08Extra(t *testing.T) {
 					return
 				}
 				rec.NonTrivial("wrong-code/" + fmt.Sprint(n))
+				return
+			}
+			if (len(sconns) != n || len(r.conns) != n) && (strings.Contains(fmt.Sprint(serr, r.err), "deadline exceeded") || strings.Contains(fmt.Sprint(serr, r.err), "timeout")) {
+				rec.Class("honest-not-judged-timeout") // ran out of time, not rejected
 				return
 			}
 			if len(sconns) != n || len(r.conns) != n {
